@@ -5,16 +5,16 @@ CONSTANTS
   Bad = 99
   Cooldown = 2
   MaxNow = 4
-  MaxLen = 8
-  RepFloor = 6
-  RepMax = 2
+  MaxLen = 4
+  RepFloor = 4
+  RepMax = 1
   Reward = 1
   Penalty = 2
   CooldownSkipsChecks = FALSE
   InvalidKeyNoPenalty = FALSE
-  Versions = {"cur"}
+  Versions = {"cur", "old"}
   OldVersionSkipsPow = FALSE
-INVARIANTS Reach_BadNonceInCooldown
+INVARIANTS C20_AcceptNeedsValidKey C20_AcceptNeedsValidPow C20_AcceptRegisters C20_RejectKeepsKeys C20_RejectLowersRep D_SessionIsKey
 VIEW View
 CONSTRAINT Bound
 CHECK_DEADLOCK FALSE
